@@ -135,22 +135,6 @@ EncodeTxList(txs) == LET p == EncodeTxSeq(txs) IN EncLen(Len(p), 192) \o p
 HashPreimage(tx)  == Marshal(WithoutSidecar(tx))
 Size(tx)          == Len(Marshal(tx))
 
-(* TODO-KNOWN-FINDING (C02-sidecar-size): core/types computes the size of a blob          *)
-(* transaction that carries a sidecar (Transaction.Size on a fresh value) and of its     *)
-(* sidecar-free copy (WithoutBlobTxSidecar().Size) as if the sidecar were a list of its   *)
-(* own, i.e. with the header length of the sidecar content instead of the header length  *)
-(* of the whole wrapper list.  The two differ exactly when the wrapper's payload is in a  *)
-(* larger length class than the sidecar content (e.g. a sidecar without blobs).  These   *)
-(* are the two values the code reports; the checks accept them only where               *)
-(* KnownSidecarSize(tx) holds and count every use.                                       *)
-ScContentLen(tx) == LET s == tx.sc[1] IN
-                    Len(EncSeq(IF s.ver = 0 THEN <<s.blobs, s.comms, s.proofs>>
-                                            ELSE <<Str(<<s.ver>>), s.blobs, s.comms, s.proofs>>))
-ScAsList(tx)     == Len(EncLen(ScContentLen(tx), 192)) + ScContentLen(tx)
-ApproxSize(tx)       == 1 + Len(Enc(tx.v)) + ScAsList(tx)          \* reported for a fresh value
-ApproxNoScSize(tx)   == Size(tx) - ScAsList(tx)                    \* reported after removing the sidecar
-KnownSidecarSize(tx) == tx.sc # NoSidecar /\ ApproxSize(tx) # Size(tx)
-
 WFTx(tx) == /\ tx.typ \in 0..4 /\ WF(Schema(tx.typ), tx.v)
             /\ (tx.sc # NoSidecar => tx.typ = 3 /\ tx.sc[1].ver \in {0, 1}
                                      /\ WF(TList(TBlob), tx.sc[1].blobs)
